@@ -130,10 +130,15 @@ static const char* err_name(int c) {
 // ---- temporaries built through the C interface and released exactly once
 struct CCoef { ppl_Coefficient_t c; explicit CCoef(long v) : c(0) { mpz_t z; mpz_init_set_si(z, v); int rc = ppl_new_Coefficient_from_mpz_t(&c, z); mpz_clear(z); CK(rc); } ~CCoef() { if (c) ppl_delete_Coefficient(c); }
   long get() const { mpz_t z; mpz_init(z); ppl_Coefficient_to_mpz_t(c, z); long r = mpz_fits_slong_p(z) ? mpz_get_si(z) : 0; if (!mpz_fits_slong_p(z) || r > LIM || r < -LIM) big = true; mpz_clear(z); return r; } };
+// a linear expression is built either (style 0) with its final dimension and the non-zero coefficients only, or (style 1) as a client filling a
+// dense row does: from the 0-dimensional expression, adding EVERY coefficient (zeros included: they extend the dimension) in index order
+static unsigned le_style = 0;
 struct CLE { ppl_Linear_Expression_t e; CLE(const LV& v, unsigned n, bool inh = true) : e(0) {
-    unsigned m = v.size() > 0 ? v.size() - 1 : 0; CK(ppl_new_Linear_Expression_with_dimension(&e, n > m ? n : m));
-    try { for (unsigned k = 0; k < m; ++k) if (v[k + 1] != 0) { CCoef c(v[k + 1]); CK(ppl_Linear_Expression_add_to_coefficient(e, k, c.c)); }
-          if (inh && !v.empty() && v[0] != 0) { CCoef c(v[0]); CK(ppl_Linear_Expression_add_to_inhomogeneous(e, c.c)); } } catch (...) { ppl_delete_Linear_Expression(e); throw; } }
+    unsigned m = v.size() > 0 ? v.size() - 1 : 0; unsigned style = (le_style++) % 2;
+    if (style == 0) CK(ppl_new_Linear_Expression_with_dimension(&e, n > m ? n : m)); else CK(ppl_new_Linear_Expression(&e));
+    try { for (unsigned k = 0; k < m; ++k) if (style == 1 || v[k + 1] != 0) { CCoef c(v[k + 1]); CK(ppl_Linear_Expression_add_to_coefficient(e, k, c.c)); }
+          if (style == 1 && n > m) { CCoef z(0); CK(ppl_Linear_Expression_add_to_coefficient(e, n - 1, z.c)); }
+          if (inh && !v.empty() && (style == 1 || v[0] != 0)) { CCoef c(v[0]); CK(ppl_Linear_Expression_add_to_inhomogeneous(e, c.c)); } } catch (...) { ppl_delete_Linear_Expression(e); throw; } }
   ~CLE() { if (e) ppl_delete_Linear_Expression(e); } };
 struct CCon { ppl_Constraint_t c; CCon(const std::string& k, const LV& v, unsigned n) : c(0) { CLE e(v, n); CK(ppl_new_Constraint(&c, e.e, k == "eq" ? PPL_CONSTRAINT_TYPE_EQUAL : k == "gt" ? PPL_CONSTRAINT_TYPE_GREATER_THAN : PPL_CONSTRAINT_TYPE_GREATER_OR_EQUAL)); } ~CCon() { if (c) ppl_delete_Constraint(c); } };
 struct CGen { ppl_Generator_t g; CGen(const std::string& k, const LV& v, unsigned n) : g(0) { CLE e(v, n, false); CCoef d(v.empty() ? 1 : v[0]);
